@@ -570,6 +570,12 @@ func init() {
 		cs, ok := x.semiOf(args[0])
 		old, ok2 := args[1].(string)
 		if !ok || !ok2 || old == "" {
+			if sv, isSym := args[0].(sym); isSym && ok2 && old != "" && x.checking() {
+				// nothing to replace on any input of this path: the string is returned unchanged
+				if r, _ := x.query(x.tb.Contains(sv.t, x.tb.StrC(old)), false); r == smt.Unsat {
+					return args[0]
+				}
+			}
 			return prevRA(fr, args)
 		}
 		var out value = ""
